@@ -47,7 +47,7 @@ pub fn compare_grids(c: &ModularCase, grids: &[Grid], what: &str) -> Option<(Str
 
 impl Check for C03 {
     fn fixed_cases(&self) -> Vec<(String, Vec<u8>)> {
-        vec![("raw-palette-delta-in-range".into(), b"\xffRAW\x00".to_vec()), ("raw-prev-channel-table".into(), b"\xffRAW\x01".to_vec()), ("raw-rct37-squeeze-21x1".into(), b"\xffRAW\x03".to_vec())]
+        vec![("raw-palette-delta-in-range".into(), b"\xffRAW\x00".to_vec()), ("raw-prev-channel-table".into(), b"\xffRAW\x01".to_vec()), ("raw-rct37-squeeze-21x1".into(), b"\xffRAW\x03".to_vec()), ("raw-gradient-table-extreme".into(), b"\xffRAW\x04".to_vec())]
     }
     fn id(&self) -> &'static str {
         "C03"
